@@ -239,6 +239,9 @@ func (fr *Frame) callFunc(s *State, callee *types.Func, recv *Val, args []*Val, 
 	if r, ok := fr.streamModel(s, callee, recv, args); ok {
 		return r
 	}
+	if r, ok := fr.sortModel(s, callee, args); ok {
+		return r
+	}
 	if c := fr.eng.contractFor(callee); c != nil {
 		return fr.applyContract(s, c, callee, recv, args, call.Pos())
 	}
@@ -422,7 +425,6 @@ func (fr *Frame) initResults(s *State, ft *ast.FuncType) {
 }
 
 func (fr *Frame) callClosure(s *State, c *Closure, call *ast.CallExpr) []*Val {
-	lit := c.Lit.(*ast.FuncLit)
 	var args []*Val
 	for _, a := range call.Args {
 		args = append(args, fr.eval(s, a))
@@ -430,6 +432,11 @@ func (fr *Frame) callClosure(s *State, c *Closure, call *ast.CallExpr) []*Val {
 	if fr.depth >= maxInlineDepth {
 		return fr.havocCall(s, fr.typeOf(call), "closure call (depth)")
 	}
+	return fr.callClosureVals(s, c, args)
+}
+
+func (fr *Frame) callClosureVals(s *State, c *Closure, args []*Val) []*Val {
+	lit := c.Lit.(*ast.FuncLit)
 	sig, _ := c.Frame.typeOf(lit).(*types.Signature)
 	nf := &Frame{eng: fr.eng, vc: fr.vc, fi: c.Frame.fi, info: c.Frame.info, pkg: c.Frame.pkg, sig: sig, depth: fr.depth + 1, parent: fr, entry: fr.entry, lit: lit}
 	nf.boxedSet = c.Frame.boxedSet
@@ -697,14 +704,14 @@ func (fr *Frame) evalAppend(s *State, call *ast.CallExpr, t types.Type) *Val {
 		inplace := fmt.Sprintf("(< (sl_len %s) (sl_cap %s))", cur.S, cur.S)
 		h := s.heap(hn, hs)
 		// in-place branch
-		hIn := fmt.Sprintf("(store %s (sl_ref %s) (store (select %s (sl_ref %s)) (+ (sl_off %s) (sl_len %s)) %s))", h, cur.S, h, cur.S, cur.S, cur.S, v.S)
+		hIn := fmt.Sprintf("(store %s (sl_ref %s) (store (select %s (sl_ref %s)) (ix (sl_off %s) (sl_len %s)) %s))", h, cur.S, h, cur.S, cur.S, cur.S, v.S)
 		rIn := fmt.Sprintf("(mk_Slice (sl_ref %s) (sl_off %s) (+ (sl_len %s) 1) (sl_cap %s))", cur.S, cur.S, cur.S, cur.S)
 		// growing branch
 		ref := s.alloc()
 		newArr := fr.vc.declare("grown", fmt.Sprintf("(Array Int %s)", es))
 		newCap := fr.vc.declare("newcap", "Int")
 		s.assume(fmt.Sprintf("(> %s (sl_len %s))", newCap, cur.S))
-		s.assume(fmt.Sprintf("(forall ((i Int)) (! (=> (and (<= 0 i) (< i (sl_len %s))) (= (select %s i) (select (select %s (sl_ref %s)) (+ (sl_off %s) i)))) :pattern ((select %s i))))",
+		s.assume(fmt.Sprintf("(forall ((i Int)) (! (=> (and (<= 0 i) (< i (sl_len %s))) (= (select %s i) (select (select %s (sl_ref %s)) (ix (sl_off %s) i)))) :pattern ((select %s i))))",
 			cur.S, newArr, h, cur.S, cur.S, newArr))
 		hGrow := fmt.Sprintf("(store %s %s (store %s (sl_len %s) %s))", h, ref, newArr, cur.S, v.S)
 		rGrow := fmt.Sprintf("(mk_Slice %s 0 (+ (sl_len %s) 1) %s)", ref, cur.S, newCap)
@@ -734,9 +741,9 @@ func (fr *Frame) appendSlice(s *State, a, b *Val, st *types.Slice, pos token.Pos
 	oldA := fmt.Sprintf("(select %s (sl_ref %s))", h, a.S)
 	oldB := fmt.Sprintf("(select %s (sl_ref %s))", h, b.S)
 	// contents: positions [off, off+la) as before (from a); [off+la, off+total) from b (memmove semantics: source read before write)
-	s.assume(fmt.Sprintf("(forall ((i Int)) (! (=> (and (<= 0 i) (< i %s)) (= (select %s (+ %s i)) (select %s (+ (sl_off %s) i)))) :pattern ((select %s (+ %s i)))))",
+	s.assume(fmt.Sprintf("(forall ((i Int)) (! (=> (and (<= 0 i) (< i %s)) (= (select %s (ix %s i)) (select %s (ix (sl_off %s) i)))) :pattern ((select %s (ix %s i)))))",
 		la, newArr, resOff, oldA, a.S, newArr, resOff))
-	s.assume(fmt.Sprintf("(forall ((i Int)) (! (=> (and (<= 0 i) (< i %s)) (= (select %s (+ %s %s i)) (select %s (+ (sl_off %s) i)))) :pattern ((select %s (+ %s %s i)))))",
+	s.assume(fmt.Sprintf("(forall ((i Int)) (! (=> (and (<= 0 i) (< i %s)) (= (select %s (ix %s (+ %s i))) (select %s (ix (sl_off %s) i)))) :pattern ((select %s (ix %s (+ %s i))))))",
 		lb, newArr, resOff, la, oldB, b.S, newArr, resOff, la))
 	// in place: cells outside the written window keep their old content
 	s.assume(fmt.Sprintf("(=> %s (forall ((j Int)) (! (=> (or (< j (+ %s %s)) (>= j (+ %s %s))) (= (select %s j) (select %s j))) :pattern ((select %s j)))))",
@@ -765,7 +772,7 @@ func (fr *Frame) evalCopy(s *State, call *ast.CallExpr) *Val {
 	newArr := fr.vc.declare("cparr", fmt.Sprintf("(Array Int %s)", es))
 	oldD := fmt.Sprintf("(select %s (sl_ref %s))", h, dst.S)
 	oldS := fmt.Sprintf("(select %s (sl_ref %s))", h, src.S)
-	s.assume(fmt.Sprintf("(forall ((i Int)) (! (=> (and (<= 0 i) (< i %s)) (= (select %s (+ (sl_off %s) i)) (select %s (+ (sl_off %s) i)))) :pattern ((select %s (+ (sl_off %s) i)))))",
+	s.assume(fmt.Sprintf("(forall ((i Int)) (! (=> (and (<= 0 i) (< i %s)) (= (select %s (ix (sl_off %s) i)) (select %s (ix (sl_off %s) i)))) :pattern ((select %s (ix (sl_off %s) i)))))",
 		n, newArr, dst.S, oldS, src.S, newArr, dst.S))
 	s.assume(fmt.Sprintf("(forall ((j Int)) (! (=> (or (< j (sl_off %s)) (>= j (+ (sl_off %s) %s))) (= (select %s j) (select %s j))) :pattern ((select %s j))))",
 		dst.S, dst.S, n, newArr, oldD, newArr))
